@@ -141,6 +141,18 @@ VERSIONS = ["1", "10", "a:b", "a#b", "#", ":", "::x", "x::y#z", "a@b=c+d-e_f.g",
 STORES = ["memory", "fs", "fs+meta", "fs+cache:1"]
 
 
+_MODULE_SERIAL = [0]
+
+
+def _fresh_module_name():
+    """A module name never used before in this worker process: process-global state that a change under test may add (caches keyed by
+    module / function / version) then cannot leak from one explored path into the next - a leak would make a counterexample
+    irreproducible in a fresh interpreter, i.e. a harness error instead of a finding. Within one path such state is exercised on
+    purpose (entries are read before the program changes)."""
+    _MODULE_SERIAL[0] += 1
+    return "vpprog%d" % _MODULE_SERIAL[0]
+
+
 def _decor(version, cluster):
     args = ["version=%r" % version]
     if cluster:
@@ -166,7 +178,7 @@ def find_again(vi: int, named: bool, store: int):
     cover("memory" if kind == "memory" else "fs")
     with concrete_region():
         sb = Sandbox(kinds=kind, clusters={"cl": kind})
-        prog = Program("vpprog")
+        prog = Program(_fresh_module_name())
         try:
             prog.exec(
                 _decor(version, cluster) + "\ndef f(x):\n    _trace.append(('f', x))\n    return x + 1\n\n"
@@ -191,7 +203,7 @@ def find_again(vi: int, named: bool, store: int):
                 if r.qualified_name == f.fn_reference().qualified_name:
                     parts = FunctionReference.parse_qualified_name(r.qualified_name)
                     check("listed-parts", (parts["cluster"], parts["module"], parts["function"], parts["version"])
-                          == (cluster, "vpprog", "f", version), parts)
+                          == (cluster, prog.name, "f", version), parts)
                     check("listed-reference-is-local", not r.external, repr(r))
             f.forget(1)
             check("forget-then-miss", f.memento(1) is None, None)
@@ -207,23 +219,25 @@ EVOLUTIONS = ["edited", "reversioned", "removed", "plain", "reclustered", "uncha
 
 @obligation(
     "C12.evolution",
-    covers=("stale-reference-external", "default-cluster", "named-cluster"),
+    covers=("stale-reference-external", "default-cluster", "named-cluster", "entry-read-before-the-change"),
     split={"store": [0, 1]},
     bounds="caller p (version pinned) -> callee q; q then edited / given another explicit version / removed / replaced by a plain "
-           "function / moved to another cluster / unchanged; default and named cluster; memory and fs stores",
-    variables="choice: evolution, cluster bit, callee auto/explicit version, store",
+           "function / moved to another cluster / unchanged; the stored entry read once before the change or not; default and named "
+           "cluster; memory and fs stores",
+    variables="choice: evolution, cluster bit, callee auto/explicit version, read-before bit, store",
     budget_s={"quick": 120, "thorough": 300},
     choice_vars=4,
 )
-def evolution(ev: int, named: bool, q_explicit: bool, store: int):
+def evolution(ev: int, named: bool, q_explicit: bool, read_before: bool, store: int):
     evo = EVOLUTIONS[pick(ev, len(EVOLUTIONS))]
+    rb = True if read_before else False
     cluster = "cl" if named else None
     kind = STORES[store]
     cover("named-cluster" if named else "default-cluster")
     qx = True if q_explicit else False
     with concrete_region():
         sb = Sandbox(kinds=kind, clusters={"cl": kind, "other": kind})
-        prog = Program("vpprog")
+        prog = Program(_fresh_module_name())
         try:
             def qdecor(ver, cl):
                 a = []
@@ -239,6 +253,13 @@ def evolution(ev: int, named: bool, q_explicit: bool, store: int):
             r1 = prog.p(3)
             check("first-run", r1 == 7, r1)
             old_q = prog.q.fn_reference().qualified_name
+            if rb:
+                # the stored entry is read (decoded, listed) once BEFORE the code base evolves: what was resolved then must not
+                # be what is reported afterwards
+                cover("entry-read-before-the-change")
+                m0 = prog.p.memento(3)
+                check("readable-before-the-change", m0 is not None and len(prog.p.list_mementos()) == 1, None)
+                list_memoized_functions(cluster)
             # ---- the code base evolves
             if evo == "edited":
                 q2 = qdecor("q1" if qx else None, cluster) + "\ndef q(x):\n    _trace.append(('q', x))\n    return x * 3\n\n"
@@ -280,6 +301,75 @@ def evolution(ev: int, named: bool, q_explicit: bool, store: int):
                 check("stale-reference-reported-external", inv[0].fn_reference.external is True, repr(inv[0].fn_reference))
             else:
                 check("current-reference-is-local", inv[0].fn_reference.external is False, repr(inv[0].fn_reference))
+        finally:
+            prog.close()
+            sb.close()
+
+
+@obligation(
+    "C12.evolution_fn_argument",
+    covers=("stale-argument-external", "default-cluster", "named-cluster", "entry-read-before-the-change"),
+    split={"store": [0, 1, 3]},
+    bounds="caller p (version pinned) invoked with the memento function q as an ARGUMENT VALUE (bare or with a partially bound value); q "
+           "then edited / re-versioned / removed / replaced by a plain function / unchanged; the stored entry is read once before the "
+           "change or not; default and named cluster; memory, fs, fs+cache: the stored entry stays listable and readable, its recorded "
+           "argument keeps q's old name and version (as an external reference when that version is gone)",
+    variables="choice: evolution, cluster bit, partial bit, read-before bit, store",
+    budget_s={"quick": 120, "thorough": 300},
+    choice_vars=5,
+)
+def evolution_fn_argument(ev: int, named: bool, partial: bool, read_before: bool, store: int):
+    evo = ["edited", "reversioned", "removed", "plain", "unchanged"][pick(ev, 5)]
+    cluster = "cl" if named else None
+    kind = STORES[store]
+    cover("named-cluster" if named else "default-cluster")
+    pt = True if partial else False
+    rb = True if read_before else False
+    with concrete_region():
+        sb = Sandbox(kinds=kind, clusters={"cl": kind})
+        prog = Program(_fresh_module_name())
+        try:
+            p_src = _decor("1", cluster) + "\ndef p(x, h):\n    _trace.append(('p', x))\n    return 1\n"
+            q_src = (("@m.memento_function(cluster=%r)" % cluster) if cluster else "@m.memento_function") + \
+                "\ndef q(a, x=0):\n    _trace.append(('q', x))\n    return x * 2\n\n"
+            prog.exec(q_src + p_src)
+            arg = prog.q.partial(7) if pt else prog.q
+            check("first-run", prog.p(3, arg) == 1, None)
+            old_q = prog.q.fn_reference().qualified_name
+            if rb:
+                cover("entry-read-before-the-change")
+                check("readable-before-the-change", len(prog.p.list_mementos()) == 1 and prog.p.memento(3, arg) is not None, None)
+            if evo == "edited":
+                q2 = q_src.replace("x * 2", "x * 3")
+            elif evo == "reversioned":
+                q2 = q_src.replace("@m.memento_function(", "@m.memento_function(version='q2', ").replace("@m.memento_function\n", "@m.memento_function(version='q2')\n")
+            elif evo == "removed":
+                q2 = "del q\n"
+            elif evo == "plain":
+                q2 = "def q(a, x=0):\n    return x * 2\n\n"
+            else:
+                q2 = q_src
+            prog.exec(q2)
+            stale = evo != "unchanged"
+            lst = prog.p.list_mementos()
+            check("list_mementos-readable", len(lst) == 1, len(lst))
+            fns = list_memoized_functions(cluster)
+            check("list_memoized_functions-readable", any(r.qualified_name == prog.p.fn_reference().qualified_name for r in fns),
+                  [r.qualified_name for r in fns])
+            fa = lst[0].invocation_metadata.fn_reference_with_args
+            rec = fa.effective_kwargs["h"]
+            rec_ref = rec.fn_reference() if hasattr(rec, "fn_reference") and callable(getattr(rec, "fn_reference")) else rec
+            check("recorded-argument-keeps-the-old-name-and-version", rec_ref.qualified_name == old_q, (rec_ref.qualified_name, old_q))
+            if pt:
+                check("recorded-argument-keeps-its-bound-value", tuple(rec_ref.partial_args or ()) == (7,), rec_ref.partial_args)
+            if stale and kind != "memory":
+                cover("stale-argument-external")
+                check("stale-argument-reported-external", rec_ref.external is True, repr(rec_ref))
+            if kind == "memory":
+                cover("stale-argument-external")  # memory keeps live objects (known finding KF-C12-memory-live-objects for invocations)
+            if not stale:
+                n = len(prog.trace)
+                check("unchanged-program-is-served", prog.p(3, prog.q.partial(7) if pt else prog.q) == 1 and len(prog.trace) == n, None)
         finally:
             prog.close()
             sb.close()
